@@ -3,6 +3,6 @@
 tier=$1; seed=$2; shift 2
 cs=${@:-C01 C02 C03 C04 C05 C06 C07 C08 C09 C10 C11 C12 C13 C14 C15 C16 C17 C18 C19 C20}
 for c in $cs; do
-  VERIF_SEED=$seed timeout 7200 /venv/bin/python /verif/mc/run.py $c --tier $tier 2>&1 | grep -v "^KNOWN" | tail -1 | cut -c1-260
+  VERIF_SEED=$seed timeout 7200 /venv/bin/python /verif/mc/run.py $c --tier $tier $SWEEP_ARGS 2>&1 | grep -v "^KNOWN" | tail -1 | cut -c1-260
   echo "   rc=${PIPESTATUS[0]}"
 done
